@@ -24,7 +24,7 @@ from pathlib import Path
 from .. import common
 
 PROP = "C15"
-MODULES = ["XpmVerif.Properties.C15", "XpmVerif.Properties.C15Mro"]
+MODULES = ["XpmVerif.Properties.C15", "XpmVerif.Properties.C15Mro", "XpmVerif.Properties.C15Src"]
 BASE = 1000  # class id of `Config` itself (every configuration is an instance)
 
 # ---------------------------------------------------------------------------
@@ -48,7 +48,17 @@ common.load_findings = _load_findings
 
 
 def prove(ctx):
-    common.check_proofs(ctx, MODULES)
+    """regenerate Generated/ValidateSrc.lean from the tree under test (translate/typesrc.py), then build + audit; the source
+    obligations are the theorems of Properties/C15Src.lean"""
+    from ..translate import typesrc
+    ok, msg = typesrc.generate(common.REPO, common.LEAN, probe=lambda: probe_impl(ctx))
+    ctx.notes.append(f"translator typesrc: {msg}")
+    R, fallback = getattr(typesrc.generate, "last", ({}, []))
+    ctx.extra_cov["typesrc_translated_parts"] = 17 - len(fallback)
+    ctx.extra_cov["typesrc_fallback_parts"] = [n for n, _ in fallback]
+    if R:
+        ctx.extra_cov["switches_read_off_the_source"] = typesrc.switches(R)
+    common.check_proofs(ctx, MODULES, translate_msgs=[(ok, msg)])
 
 
 # ---------------------------------------------------------------------------
@@ -925,6 +935,11 @@ class PDir(Config):
     impl["resetOnFail"] = res == ["missing", "missing"]
     P.impl = impl
     ctx.extra_cov["source_variant"] = impl
+    tr = ctx.extra_cov.get("switches_read_off_the_source")
+    if tr is not None:
+        ctx.extra_cov["switches_probed_equal_translated"] = (tr == impl)
+        if tr != impl:
+            ctx.notes.append(f"switches read off the source {tr} differ from the probed ones {impl}: the correspondence runs with the probed ones")
     ctx.extra_cov["switch_hypotheses_met_by_the_probed_source"] = {
         "validate_sound / set_sound for every type (else only where no Union / no nested configuration class occurs)":
             not impl["unionDictNone"] and not impl["cfgNoneOk"],
